@@ -115,6 +115,7 @@ func PropC14(c *vs.Case, f Factory, kind string) error {
 	useSel := c.Bool()
 	if useSel {
 		scn.Cfg.ParentSelector = map[string]string{"enabled": "yes"}
+		scn.Cfg.SelAsExpressions = c.Bool()
 		if kind == "decorator" && c.Bool() {
 			scn.Cfg.ParentAnnSel = map[string]string{"decorate": "please"}
 		}
